@@ -248,6 +248,11 @@ pub fn plan(p: u32, tier: &str) -> Vec<Run> {
             let mut xe = noise("S3D3-exacteph-E-consumers", 3, false, false);
             xe.cmp = Cmp::ExactEph;
             add(xe, slots_matching(3, &["EOO", "EEO", "AEO", "OEO"]));
+            // a job that ignores its inputs is re-executed with the same content and a new timestamp when an
+            // input changes: its consumers' link records then differ from its own record in text only
+            let mut xi = noise("S3D2-ignore-exacteph+follow", 2, true, false);
+            xi.cmp = Cmp::ExactEph;
+            add(xi, families::slots_ignore(3));
             let mut pr = noise("S3D2-prod+follow", 2, true, false);
             pr.cmp = Cmp::Prod;
             pr.conv = Conv::Parts;
